@@ -741,6 +741,10 @@ pub fn run_case<F: Family>(it: &mut Interp<F>, name: &str, seed: u64, cfg: &GenC
     it.exec(0, &Op::New { res });
     let multi = !cfg.profile.contains("single");
     let serde_on = cfg.profile.contains("serde");
+    // an entity without components (its table's identifier is all zeroes) in a third of the cases
+    if g.rng.below(3) == 0 && shapes.iter().any(|s| s.is_empty()) {
+        it.exec(0, &Op::Insert { shape: vec![], ids: vec![] });
+    }
     for _ in 0..cfg.ops {
         let w = if !multi {
             0
